@@ -219,6 +219,86 @@ def run_scenario(fn_name, fmt, crashes, user_provided=False, with_relative=True)
         shutil.rmtree(root, ignore_errors=True)
 
 
+def check_two_splits():
+    """two relative paths under one local root: finishing 'train' must not make an interrupted 'val' look complete"""
+    from kappadata.copying.folder import copy_folder_from_global_to_local as fn
+    root = tempfile.mkdtemp(prefix="kdverif-c20-")
+    try:
+        g = os.path.join(root, "global")
+        expected = {}
+        for split in ("train", "val"):
+            for i in range(4):
+                p = os.path.join(g, split, f"f{i}.txt")
+                os.makedirs(os.path.dirname(p), exist_ok=True)
+                open(p, "w").write(split * (i + 1))
+        local = os.path.join(root, "local")
+        os.makedirs(local)
+        fn(g, local, relative_path="train")
+        with Injector(local) as inj:
+            inj.plan = (3, "during")      # mkdir, start marker, copytree(partial)
+            try:
+                fn(g, local, relative_path="val")
+                return {"what": "crash point not reached in two-split scenario", "site": "two-splits"}
+            except Crash:
+                pass
+        res = fn(g, local, relative_path="val")
+        want = tree(os.path.join(g, "val"))
+        got = tree(os.path.join(local, "val"))
+        if got != want:
+            return {"what": "normal return but the second split under the same local root is incomplete", "site": "two-splits",
+                    "result": str(res), "missing": sorted(set(want) - set(got))}
+        return None
+    finally:
+        shutil.rmtree(root, ignore_errors=True)
+
+
+def check_symlink_source():
+    """a plain-folder source containing a symlink: the local copy must hold the file's bytes, not a link"""
+    from kappadata.copying.folder import copy_folder_from_global_to_local as fn
+    root = tempfile.mkdtemp(prefix="kdverif-c20-")
+    try:
+        g = os.path.join(root, "global")
+        os.makedirs(os.path.join(g, "ds", "a"))
+        os.makedirs(os.path.join(g, "shared"))
+        open(os.path.join(g, "shared", "big.bin"), "w").write("payload")
+        open(os.path.join(g, "ds", "a", "x.txt"), "w").write("x")
+        os.symlink(os.path.join("..", "..", "shared", "big.bin"), os.path.join(g, "ds", "a", "link.bin"))
+        local = os.path.join(root, "local")
+        os.makedirs(local)
+        fn(g, local, relative_path="ds")
+        p = os.path.join(local, "ds", "a", "link.bin")
+        if os.path.islink(p) or not os.path.exists(p) or open(p).read() != "payload":
+            return {"what": "the local copy is not byte-identical: a symlink of the source was copied as a link", "site": "symlink",
+                    "islink": os.path.islink(p), "exists": os.path.exists(p)}
+        return None
+    finally:
+        shutil.rmtree(root, ignore_errors=True)
+
+
+def check_workers(n_zips, workers):
+    """folder-of-zips source extracted by several unzip workers: every zip must arrive"""
+    from kappadata.copying.folder import copy_folder_from_global_to_local as fn
+    root = tempfile.mkdtemp(prefix="kdverif-c20-")
+    try:
+        g = os.path.join(root, "global", "ds")
+        os.makedirs(g)
+        expected = set()
+        for i in range(n_zips):
+            with zipfile.ZipFile(os.path.join(g, f"b{i}.zip"), "w") as z:
+                z.writestr(f"b{i}/f.txt", str(i))
+            expected.add(os.path.join(f"b{i}", "f.txt"))
+        local = os.path.join(root, "local")
+        os.makedirs(local)
+        res = fn(os.path.join(root, "global"), local, relative_path="ds", num_workers=workers)
+        got = set(tree(os.path.join(local, "ds")))
+        if got != expected:
+            return {"what": "normal return but zips are missing from the local copy", "site": "workers", "zips": n_zips,
+                    "workers": workers, "missing": sorted(expected - got), "result": str(res)}
+        return None
+    finally:
+        shutil.rmtree(root, ignore_errors=True)
+
+
 def classify(site):
     """stable label of a crash window for the known-findings file"""
     if site is None:
@@ -233,7 +313,7 @@ def classify(site):
     return f"{op}:{ph}"
 
 
-def search(two_crashes=True):
+def search(two_crashes=True, thorough=False):
     """-> (list of failures, evaluations)"""
     fails, n = [], 0
     for fn_name, fmt, rel in itertools.product(("folder", "image"), ("raw", "zip", "zips"), (True, False)):
@@ -255,5 +335,14 @@ def search(two_crashes=True):
         r = run_scenario(fn_name, fmt, [], user_provided=True, with_relative=rel)
         if r is not None:
             r.update(function=fn_name, format=fmt, relative_path=rel, plan=[], label="user-provided")
+            fails.append(r)
+    extra = [check_two_splits, check_symlink_source, lambda: check_workers(5, 2)]
+    if thorough:
+        extra += [lambda: check_workers(7, 3), lambda: check_workers(4, 2), lambda: check_workers(3, 1)]
+    for f in extra:
+        n += 1
+        r = f()
+        if r is not None:
+            r.update(plan=[], label=r.get("site"), function="folder", format="-", relative_path=True)
             fails.append(r)
     return fails, n
